@@ -208,7 +208,9 @@ func (c *Ctx) RequestBody() *RequestBody {
 	rb := &RequestBody{Required: rapid.Bool().Draw(t, "body_required")}
 	if rapid.IntRange(0, 4).Draw(t, "body_raw") == 0 {
 		c.Tag("body:raw")
-		rb.Content = map[string]*MediaType{"application/octet-stream": {Schema: &Schema{Type: "string", Format: "binary"}}}
+		// (a media type that merely resembles application/json is a raw body for both sides)
+		mt := rapid.SampledFrom([]string{"application/octet-stream", "application/octet-stream", "text/plain", "application/json; charset=utf-8", "Application/JSON", "application/x-ndjson", "application/merge-patch+json"}).Draw(t, "body_raw_media_type")
+		rb.Content = map[string]*MediaType{mt: {Schema: &Schema{Type: "string", Format: "binary"}}}
 	} else {
 		c.Tag("body:json")
 		rb.Content = JSONContent(c.BodySchema("reqbody"))
@@ -718,11 +720,10 @@ func (c *Ctx) ParamsDoc(withPathVars bool, withBodies ...bool) *Doc {
 		pi := &PathItem{}
 		d.Paths["/"+strings.Join(segs, "/")] = pi
 		mkParam := func(in string, level string) *Parameter {
-			prefix := "q"
 			if in == "header" {
-				prefix = "X-H"
+				return c.Param(in, c.SafeName("X-H", "pname"), rapid.Bool().Draw(t, "param_required"))
 			}
-			return c.Param(in, c.SafeName(prefix, "pname"), rapid.Bool().Draw(t, "param_required"))
+			return c.Param(in, c.QueryName("q", "pname"), rapid.Bool().Draw(t, "param_required"))
 		}
 		npl := rapid.IntRange(0, 2).Draw(t, "npathlevel")
 		for j := 0; j < npl; j++ {
